@@ -132,6 +132,10 @@ def run(ctx):
         # ---- R2
         P = prov.prov_of(nth)
         rv = P.return_value()
+        # private helpers of the calculator itself (e.g. the builder chain split off into its own method) are read through
+        rv = prov.inline_all(F, rv, depth=2, _seen=(nth.path,), only=lambda f_: (f_.get('impl_adt') or '') == adt and f_.get('name') not in ('nth', 'next', 'last', 'new'))
+        import combin
+        rv = combin.expand(F, rv)          # Option::map(|attrs| ..) instead of `?` + Some(..)
         calcs = [x for x in prov.walk(rv) if x[0] == 'call' and x[1].get('name') == 'calculate'
                  and (x[1].get('impl_adt') or '').endswith('%sPerformance' % CAP[mode])]
         if len(calcs) != 1:
